@@ -60,7 +60,7 @@ def plan(tier, seed):
 
 def floors(tier):
     return {'evaluations': 2000, 'distinct_nontrivial': 20000, 'legacy_calls_compared': 100000,
-            'spelling_parses_compared': 15000, 'histkeys:method': 9, 'histkeys:spelling': 8,
+            'spelling_parses_compared': 15000, 'histkeys:method': 11, 'histkeys:spelling': 8,
             'histkeys:argspec': 121, 'k4_witness_checked': 1, 'optarg_views_checked': 2000}
 
 
@@ -295,6 +295,34 @@ def compare_walker(s, pos, tol, rng, rec):
             cmp('get_latex_nodes(stop_upon_closing_brace)', cl, a, b)
         elif b[0] == 'ok' and a[0] != 'ok':
             out.append(('get_latex_nodes(stop_upon_closing_brace)', cl, 'legacy %s vs group parser %s' % (_brief(a), _brief(b))))
+    # ---- get_latex_nodes: the two documented spellings of stop_upon_closing_brace (closing character, or
+    #      (open, close) pair) and the new-parser equivalent (stop at the closing token, delimiters added)
+    op, cl = rng.choice([('{', '}'), ('[', ']'), ('(', ')'), ('<', '>')])
+
+    def old_char():
+        nl, p, l = w.get_latex_nodes(pos, stop_upon_closing_brace=cl)
+        return (dump(nl), p, l)
+
+    def old_pair():
+        nl, p, l = w.get_latex_nodes(pos, stop_upon_closing_brace=(op, cl))
+        return (dump(nl), p, l)
+
+    def new_pair():
+        ps = w.make_parsing_state()
+        if (op, cl) not in ps.latex_group_delimiters:
+            ps = ps.sub_context(latex_group_delimiters=list(ps.latex_group_delimiters) + [(op, cl)])
+        tr = w.make_token_reader(pos=pos)
+        par = P.LatexGeneralNodesParser(
+            stop_token_condition=lambda t: t.tok == 'brace_close' and t.arg == cl,
+            require_stop_condition_met=True,
+            handle_stop_condition_token=lambda token, latex_walker, token_reader, parsing_state: token_reader.move_past_token(token))
+        nl, _ = w.parse_content(par, token_reader=tr, parsing_state=ps)
+        if nl is None:
+            return (None, None, None)
+        return (dump(nl), nl.pos, tr.cur_pos() - nl.pos)
+    a1, a2, b = run(old_char), run(old_pair), run(new_pair)
+    cmp('get_latex_nodes(stop_upon_closing_brace=char)', cl, a1, b)
+    cmp('get_latex_nodes(stop_upon_closing_brace=pair)', (op, cl), a2, b)
     # ---- get_latex_nodes: stop_upon_end_environment / closing_mathmode vs. reimplementation from the docs
     which = rng.choice(['env', 'math'])
     if which == 'env':
